@@ -22,6 +22,8 @@ FUNCTIONS = [
     ("saml2.response", "AuthnResponse.condition_ok"),
     ("saml2.response", "AuthnResponse.authn_statement_ok"),
     ("saml2.response", "StatusResponse._verify"),
+    ("saml2.response", "AuthnResponse.loads"),
+    ("saml2.sigver", "SecurityContext.correctly_signed_response"),
 ]
 
 LOGGERS = ("logger", "logging", "print")
@@ -214,10 +216,12 @@ def gen():
         src = textwrap.dedent(inspect.getsource(obj))
         fn = ast.parse(src).body[0]
         a = fn.args
-        if a.vararg or a.kwarg or a.kwonlyargs or a.posonlyargs:
+        if a.vararg or a.kwonlyargs or a.posonlyargs:
             params = None
         else:
             params = [x.arg for x in a.args]
+            if a.kwarg:                      # **kwargs: one more parameter, a dict (an object whose fields are the keys)
+                params.append(a.kwarg.arg)
         name = qual.replace(".", "_")
         if params is None or depth(fn) > 40:
             body = '[.unsupported "signature or depth"]'
